@@ -271,6 +271,8 @@ def run(repo, res):
                   '(found %s)' % (label, texts or 'no names_at call'),
                   sample='%s: %s' % (label, '; '.join(texts)[:120]))
 
+    from .. import resolve_model as M
+    M.check_same_line(repo, res, 'C04-R3')
     # ---- R4 memo getters take no request-specific argument ------------------------------------------
     for s in sites:
         fi = s['fi']
